@@ -244,6 +244,35 @@ MARKUP = {
 }
 
 
+# `@typstyle off` directives: {D} is the directive comment (line or block form), {P} a badly formatted payload expression
+OFF_PAYLOADS = {'call': 'f( 1,2 )', 'array': '( 1,2 ,3)', 'binary': 'a  +  b', 'block': '{ x;y }', 'dict': '(a:1,b : 2)', 'closure': '(x)=>x+1', 'content': '[ a  *b* ]', 'chain': 'a . b( 1 ).c'}
+OFF_MATH_PAYLOADS = {'sum': 'a  +   b', 'call': 'sin( x )  y', 'attach': 'x_1  ^2   z'}
+OFF_POSITIONS = {
+    'markup': '{D}#{P}\n#{P}\n', 'markup_inline': 'text {D}#{P} text #{P}\n', 'codeblock': '#{\n  {D}{P}\n  {P}\n}\n', 'arg': '#g(\n  {D}{P},\n  {P},\n)\n',
+    'arg_second': '#g(1, {D}{P}, {P})\n', 'array_item': '#(\n  {D}{P},\n  {P},\n)\n', 'let_rhs': '#let v = {D}{P}\n', 'named_value': '#g(k: {D}{P}, j: {P})\n',
+    'dict_value': '#(k: {D}{P}, j: {P})\n', 'closure_body': '#let g = x => {D}{P}\n', 'for_body': '#for x in y {D}{P}\n', 'if_cond': '#if {D}{P} { 1 }\n',
+    'binary_rhs': '#let v = 1 + {D}{P}\n', 'paren': '#({D}{P})\n', 'content_block': '#[\n  {D}#{P}\n  #{P}\n]\n', 'list_item_tail': '- a {D}#{P}\n- #{P}\n',
+    'return': '#let g() = { return {D}{P} }\n', 'show_rhs': '#show heading: {D}{P}\n', 'set_if': '#set text(red) if {D}{P}\n', 'destruct_item': '#let ({D}a , b) = {P}\n',
+    'math_hash': '$ x + {D}#{P} $\n', 'spread': '#g(..{D}{P})\n', 'unary': '#let v = -{D}{P}\n', 'field_target': '#let v = {D}{P}.len()\n', 'call_content_arg': '#g(1){D}[ a  b ]\n',
+    'params_default': '#let g(a, b: {D}{P}) = a\n', 'context': '#context {D}{P}\n', 'include': '#include {D}"a" + {P}\n',
+}
+OFF_MATH_POSITIONS = {
+    'equation': '$ {D}{M} $\n', 'equation_block': '$\n  {D}{M}\n$\n', 'delim': '$ ( {D}{M} )  dot 2 $\n', 'delim_bracket': '$ [ {D}{M} ] $\n', 'delim_in_lr': '$ lr(( {D}{M} )) $\n',
+    'call_arg': '$ vec({D}{M}, c) $\n', 'call_2d': '$ mat({D}{M}; c) $\n', 'attach_sub': '$ x_{D}({M}) $\n', 'frac_num': '$ ({D}{M}) / 2 $\n', 'root': '$ √({D}{M}) $\n',
+    'mid_equation': '$ p  q {D}{M} $\n', 'nested_delim': '$ ((  {D}{M} )) $\n', 'delim_after_text': '$ ( u  v {D}{M} ) $\n',
+}
+OFF_DIRECTIVES = {'lc': '// @typstyle off\n', 'bc': '/* @typstyle off */ '}
+
+# tables / grids: column specifications x cell shapes
+TABLE_COLS = {'n0': 'columns: 0', 'n1': 'columns: 1', 'n2': 'columns: 2', 'n3': 'columns: 3', 'hex0': 'columns: 0x0', 'big': 'columns: 99999999999999', 'neg': 'columns: -1',
+              'arr0': 'columns: ()', 'arr0sp': 'columns: ( )', 'arr1': 'columns: (auto,)', 'arr2': 'columns: (1fr, 2fr)', 'auto': 'columns: auto', 'var': 'columns: n', 'none': None,
+              'paren': 'columns: (2)', 'two': 'columns: 2, columns: 3', 'expr': 'columns: 1 + 1', 'rows_only': 'rows: 2'}
+TABLE_CELLS = {'plain': '[a], [b], [c], [d], [e]', 'one': '[a]', 'header': 'table.header[h][i], [a], [b], [c]', 'header_mid': '[a], table.header([h]), [b], [c]',
+               'footer': '[a], [b], table.footer[f]', 'hdr_ftr_only': 'table.header[h], table.footer[f]', 'exprs': '1, "s", x, f(1), [c]', 'named_after': '[a], [b], stroke: none, [c]',
+               'cell': '[a], table.cell(colspan: 2)[b], [c]', 'hline': '[a], table.hline(), [b]', 'spread': '..cells, [a]', 'cmt': '[a], /* c */ [b], [c]', 'lc': '[a], // c\n  [b], [c]',
+               'empty': '', 'nested': 'table(columns: 2, [x], [y]), [b], [c]', 'trailing_blocks': '[a], [b])[c][d'}
+
+
 def main():
     shutil.rmtree(OUT, ignore_errors=True)
     os.makedirs(OUT)
@@ -273,6 +302,22 @@ def main():
         if kn not in ('empty', 'only_nl', 'only_sp'):
             put('k-%s--content' % kn, '#[\n' + k + ']\n')
             put('k-%s--fnbody' % kn, '#let f() = [\n' + k + ']\n')
+    for pn, pos in OFF_POSITIONS.items():
+        for yn, pay in OFF_PAYLOADS.items():
+            for dn, d in OFF_DIRECTIVES.items():
+                put('o-%s--%s--%s' % (pn, yn, dn), pos.replace('{D}', d).replace('{P}', pay))
+    for pn, pos in OFF_MATH_POSITIONS.items():
+        for yn, pay in OFF_MATH_PAYLOADS.items():
+            for dn, d in OFF_DIRECTIVES.items():
+                put('om-%s--%s--%s' % (pn, yn, dn), pos.replace('{D}', d).replace('{M}', pay))
+    for fn in ('table', 'grid'):
+        for cn, c in TABLE_COLS.items():
+            for ln, cells in TABLE_CELLS.items():
+                args = ', '.join(x for x in (c, cells.replace('table.', fn + '.')) if x)
+                put('t-%s-%s--%s' % (fn, cn, ln), '#%s(%s)\n' % (fn, args))
+                if fn == 'table' and cn in ('n0', 'arr0', 'n2', 'arr2'):
+                    put('t-%s-%s--%s--nested' % (fn, cn, ln), '#figure(%s(%s), caption: [c])\n' % (fn, args))
+                    put('t-%s-%s--%s--code' % (fn, cn, ln), '#{\n  let t = %s(%s)\n}\n' % (fn, args))
     print('%d files in %s' % (n, OUT))
 
 
